@@ -67,6 +67,18 @@ def run(ck):
                     continue
                 cx, ox = run_one(dc, 'dt64')
                 compare(ck, 'C15.data', test, dc, cb, ob, cx, ox)
+            # integer-typed arrays (no missing values possible): the data must be converted to float before any arithmetic
+            pi = 'p' * len(p)
+            ci, oi = run_one('ndarray_int', 'dt64') if False else (None, None)
+            args, kw = build('ndarray_int', 'dt64', pi)
+            ci = Case(test, args, kw, n=len(pi), pat={}, meta={'class': 'ndarray_int'}, label=f'{test}({pi!r}; data=ndarray_int)')
+            oi = run_case(ck, ci)
+            ints = [e for e in oi.events if e['kind'] == 'int-arith']
+            from ..repo import unparse
+            ck.ob('C15.data', ci.label, not ints, key=f'{fn_key(ci)}:integer-array:arithmetic-in-integer-dtype',
+                  what=f'{ci.label}: arithmetic on the data is carried out in the integer dtype of the input ('
+                       f'{unparse(ints[0]["node"], 70) if ints and ints[0].get("node") is not None else ""}): results depend on the width / signedness of the carrier '
+                       '(wrap-around) instead of on the values')
             if uses_time:
                 for tc in TIME_CARRIERS[1:]:
                     cx, ox = run_one('list_none', tc)
@@ -88,6 +100,12 @@ def run(ck):
         for dc, (cx, ox) in outs.items():
             if dc != 'ndarray':
                 compare(ck, 'C15.data', 'pressure_increasing_test', dc, cb, ob, cx, ox)
+    c = Case('pressure_increasing_test', [Vec.fresh([El(('x', 'inp', i), False) for i in range(3)], kind='nd', dtype='i8', owner='inp')], {},
+             label='pressure_increasing_test(data=ndarray_int)', meta={'class': 'ndarray_int'})
+    o = run_case(ck, c)
+    ints = [e for e in o.events if e['kind'] == 'int-arith']
+    ck.ob('C15.data', c.label, not ints, key='ioos_qc.argo.pressure_increasing_test:integer-array:arithmetic-in-integer-dtype',
+          what='pressure_increasing_test: np.diff runs in the integer dtype of the input (an unsigned array wraps around: uint8 [5, 3] looks increasing)')
     outs = []
     for miss in (None, float('nan')):
         c = Case('pressure_increasing_test', [[Fr(1), miss, Fr(3)]], {}, label=f'pressure_increasing_test([1, {miss}, 3])', meta={'class': 'missing'})
